@@ -387,6 +387,96 @@ theorem _root_.KafVerif.C45.segments_are_elements (cfg : Cfg) (root : Node) (s :
   rw [(KafVerif.C45.segments_postorder cfg root).1] at h
   exact mem_postorder cfg root [] s h
 
+/-! ### call sequences: the result of a call depends on that call's configuration and document only -/
+
+/-- Any per-process state threaded through the calls is invisible as long as every step answers
+`explode` of its own arguments under an invariant it preserves. -/
+theorem runCallsWith_transparent {σ : Type} (f : σ → Call → σ × Res) (Inv : σ → Prop)
+    (h : ∀ st c, Inv st → Inv (f st c).1 ∧ (f st c).2 = explode c.1 c.2) :
+    ∀ (calls : List Call) (st : σ), Inv st → runCallsWith f st calls = calls.map fun c => explode c.1 c.2 := by
+  intro calls
+  induction calls with
+  | nil => intros; rfl
+  | cons c cs ih =>
+    intro st hst
+    obtain ⟨h1, h2⟩ := h st c hst
+    simp only [runCallsWith, List.map_cons, h2, ih _ h1]
+
+theorem runCalls_eq_map (calls : List Call) : runCalls calls = calls.map fun c => explode c.1 c.2 :=
+  runCallsWith_transparent callStep (fun _ => True) (fun _ _ _ => ⟨trivial, rfl⟩) calls () trivial
+
+/-- **No cross-call state.**  In EVERY sequence of calls made by one process — whatever was exploded
+before (`pre`) and whatever is exploded afterwards (`post`), with whatever configurations — the result
+of a call is `explode` of the configuration value and the document given to THAT call; the same
+call gets the same result in any other history; every call gets exactly one result. -/
+theorem _root_.KafVerif.C45.explode_depends_only_on_own_call (pre post : List Call) (c : Call) :
+    (runCalls (pre ++ c :: post))[pre.length]? = some (explode c.1 c.2) ∧
+    (∀ pre' post' : List Call,
+      (runCalls (pre' ++ c :: post'))[pre'.length]? = (runCalls (pre ++ c :: post))[pre.length]?) ∧
+    (runCalls (pre ++ c :: post)).length = pre.length + 1 + post.length := by
+  have key : ∀ a b : List Call, (runCalls (a ++ c :: b))[a.length]? = some (explode c.1 c.2) := by
+    intro a b
+    rw [runCalls_eq_map, List.map_append, List.map_cons]
+    have hl : a.length = (a.map fun c => explode c.1 c.2).length := by simp
+    rw [hl, List.getElem?_append_right (Nat.le_refl _)]
+    simp
+  refine ⟨key pre post, fun pre' post' => by rw [key, key], ?_⟩
+  rw [runCalls_eq_map]; simp; omega
+
+/-- the record the property prescribes for a document (right-hand side of `explode_eq_spec`) -/
+def specRes (cfg : Cfg) (forest : List Node) : Res :=
+  { header := headerAfter none forest
+    segments := postorderL cfg [] forest
+    items := (postorderL cfg [] forest).filter (fun s => inSet cfg.items s.name)
+    partners := (postorderL cfg [] forest).filter (fun s => inSet cfg.partners s.name)
+    statuses := (postorderL cfg [] forest).filter (fun s => inSet cfg.statuses s.name)
+    dates := (postorderL cfg [] forest).filter (fun s => inSet cfg.dates s.name) }
+
+/-- **Every call of a sequence meets the property for its own configuration**: exploding the
+documents `docs` one after the other in one process, each with its own configuration, yields for
+each of them the prescribed record (one entry per element in closing order, routed lists = the
+sub-lists configured in THAT call's configuration, fields = direct children with text). -/
+theorem _root_.KafVerif.C45.calls_eq_spec (docs : List (Cfg × List Node)) :
+    runCalls (docs.map fun d => (d.1, toksL d.2)) = docs.map fun d => specRes d.1 d.2 := by
+  rw [runCalls_eq_map, List.map_map]
+  apply List.map_congr_left
+  intro d _
+  exact KafVerif.C45.explode_eq_spec d.1 d.2
+
+/-- A memo of the last configuration that keeps its OWN copy of the key (compare by value) is
+transparent: invariant "the remembered sets were built from the remembered key". -/
+theorem _root_.KafVerif.C45.value_keyed_memo_transparent (calls : List Call) :
+    runCallsWith memoStep none calls = calls.map fun c => explode c.1 c.2 := by
+  refine runCallsWith_transparent memoStep (fun st => ∀ m, st = some m → m.key = m.built) ?_ calls none (by simp)
+  intro st c hinv
+  cases st with
+  | none => simp [memoStep]
+  | some m =>
+    have hm := hinv m rfl
+    by_cases hk : m.key = c.1
+    · simp only [memoStep, hk, if_true]
+      exact ⟨hinv, by rw [← hm, hk]⟩
+    · simp [memoStep, hk]
+
+def cfgItemsP : Cfg := { items := ["E1EDP01".toList], partners := [], statuses := [], dates := [] }
+def cfgItemsK : Cfg := { items := ["E1EDKA1".toList], partners := [], statuses := [], dates := [] }
+def docPK : List Tok := toks (.elem ['R'] [] [.elem "E1EDP01".toList [] [.text ['1']], .elem "E1EDKA1".toList [] [.text ['2']]])
+
+/-- … whereas a memo whose key ALIASES the caller's slices is not: the caller rewrites its routing
+list in place (same length), the remembered key changes with it, the comparison says "same
+configuration" and the second call routes by the FIRST call's names. -/
+theorem _root_.KafVerif.C45.aliased_memo_violates :
+    ∃ calls : List (Call × Bool), runAliased none calls ≠ calls.map fun c => explode c.1.1 c.1.2 :=
+  ⟨[((cfgItemsP, docPK), false), ((cfgItemsK, docPK), true)], by decide⟩
+
+/-! non-vacuity: a two-call history where the second configuration differs from the first -/
+example : (runCalls [(cfgItemsP, docPK), (cfgItemsK, docPK)]).map (fun r => r.items.map (·.name)) =
+    [["E1EDP01".toList], ["E1EDKA1".toList]] := by decide
+example : (runAliased none [((cfgItemsP, docPK), false), ((cfgItemsK, docPK), true)]).map (fun r => r.items.map (·.name)) =
+    [["E1EDP01".toList], ["E1EDP01".toList]] := by decide
+example : (runCallsWith memoStep none [(cfgItemsP, docPK), (cfgItemsK, docPK), (cfgItemsK, docPK)]).map
+    (fun r => r.items.map (·.name)) = [["E1EDP01".toList], ["E1EDKA1".toList], ["E1EDKA1".toList]] := by decide
+
 /-! ### the code as found: a name configured for two routes lands only in the first -/
 
 def cfgBoth : Cfg := { items := [['A']], partners := [['A']], statuses := [], dates := [] }
